@@ -94,20 +94,22 @@ Record sys := mkSys {
   held : list (N * N * N);        (* ghost: (bid, uid, inst) every time \Recent of
                                      a message was handed to a selection *)
   cfg_base : N;                   (* _max_uid of a new mailbox: 100 (dict), 0 (maildir) *)
-  cfg_shared : bool               (* one SelectedSet per mailbox for all connections
+  cfg_shared : bool;              (* one SelectedSet per mailbox for all connections
                                      (dict); maildir builds a MailboxSet per connection,
                                      so any_selected only ever sees the own selection *)
+  ro_boxes : list N               (* mailboxes the backend declares read-only
+                                     (MailboxData.readonly, e.g. the demo Trash) *)
 }.
 
 Definition empty_box (base : N) : box := mkBox base [] [].
 Definition init_cfg (base : N) (shared : bool) : sys :=
-  mkSys [(INBOX, 0)] [(0, empty_box base)] [] 1 0 [] base shared.
+  mkSys [(INBOX, 0)] [(0, empty_box base)] [] 1 0 [] base shared [].
 Definition init : sys := init_cfg FIRST_MAX true.
 
-Definition set_names n (st : sys) := mkSys n (boxes st) (sess st) (next_bid st) (next_inst st) (held st) (cfg_base st) (cfg_shared st).
-Definition set_boxes b (st : sys) := mkSys (names st) b (sess st) (next_bid st) (next_inst st) (held st) (cfg_base st) (cfg_shared st).
-Definition set_sess s (st : sys) := mkSys (names st) (boxes st) s (next_bid st) (next_inst st) (held st) (cfg_base st) (cfg_shared st).
-Definition set_held h (st : sys) := mkSys (names st) (boxes st) (sess st) (next_bid st) (next_inst st) h (cfg_base st) (cfg_shared st).
+Definition set_names n (st : sys) := mkSys n (boxes st) (sess st) (next_bid st) (next_inst st) (held st) (cfg_base st) (cfg_shared st) (ro_boxes st).
+Definition set_boxes b (st : sys) := mkSys (names st) b (sess st) (next_bid st) (next_inst st) (held st) (cfg_base st) (cfg_shared st) (ro_boxes st).
+Definition set_sess s (st : sys) := mkSys (names st) (boxes st) s (next_bid st) (next_inst st) (held st) (cfg_base st) (cfg_shared st) (ro_boxes st).
+Definition set_held h (st : sys) := mkSys (names st) (boxes st) (sess st) (next_bid st) (next_inst st) h (cfg_base st) (cfg_shared st) (ro_boxes st).
 
 Definition find_box (st : sys) (nm : N) : option (N * box) :=
   match lookup nm (names st) with
@@ -204,9 +206,7 @@ Definition sync_sel (sl : sel) (b : box) : sel * sync_out :=
 Inductive post :=
 | PNone                     (* the connection has nothing selected *)
 | PSync (y : sync_out)
-| PBye                      (* "* BYE Selected mailbox no longer exists." *)
-| PStale.                   (* the remembered name now denotes another mailbox:
-                               not modelled (finding C04-F1), state untouched *)
+| PBye.                     (* "* BYE Selected mailbox no longer exists." *)
 
 Definition drop_sel (s : N) (st : sys) : sys := set_sess (remove s (sess st)) st.
 
@@ -224,7 +224,9 @@ Definition post_sync (s : N) (hint : option N) (st : sys) : sys * post :=
     let by_name :=
       match find_box st (s_name sl) with
       | None => (drop_sel s st, PBye)
-      | Some (i, b) => if i =? s_bid sl then do_sync s sl b st else (st, PStale)
+      | Some (i, b) =>
+        (* _get_selected: a name that now denotes another mailbox counts as gone *)
+        if i =? s_bid sl then do_sync s sl b st else (drop_sel s st, PBye)
       end in
     match hint with
     | Some i =>
@@ -241,8 +243,13 @@ Definition post_sync (s : N) (hint : option N) (st : sys) : sys * post :=
 (* --------------------------------------------------------------- ops *)
 Inductive smode := SAdd | SDel | SRepl.
 
+(* the message set of COPY / MOVE: 1:*, a UID set, or a set of message
+   sequence numbers (positions in the connection's view) *)
+Inductive uset := UAll | UUids (l : list N) | USeqs (l : list N).
+
 Inductive op :=
 | Create (s nm : N)
+| Delete (s nm : N)
 | Rename (s a b : N)
 | Append (s nm : N) (ms : list (N * bool * bool))   (* (mark, \Deleted given, \Recent given) *)
 | Select (s nm : N) (ro : bool)
@@ -250,12 +257,20 @@ Inductive op :=
 | Logout (s : N)
 | Noop (s : N)
 | Expunge (s : N) (set : option (list N))            (* EXPUNGE | UID EXPUNGE set *)
-| Copy (s : N) (set : option (list N)) (nm : N)      (* UID COPY *)
-| Move (s : N) (set : option (list N)) (nm : N)      (* UID MOVE *)
+| Copy (s : N) (set : uset) (nm : N)                 (* COPY / UID COPY *)
+| Move (s : N) (set : uset) (nm : N)                 (* MOVE / UID MOVE *)
 | Status (s nm : N)
 | Fetch (s : N)                                      (* NOOP; UID FETCH 1:* (UID FLAGS ..) *)
-| Store (s : N) (set : option (list N)) (md : smode) (f_deleted f_recent : bool).
+| Store (s : N) (set : option (list N)) (md : smode) (f_deleted f_recent : bool)
                                                      (* NOOP; UID STORE set +-FLAGS (..) *)
+| Idle (s : N)                                       (* IDLE, up to "+ Idling." *)
+| IdleWake (s : N)                                   (* the idling connection is pushed updates *)
+| Done (s : N)                                       (* DONE *)
+(* labels of the environment, no connection involved *)
+| MakeRo (nm : N)                                    (* the backend declares the mailbox read-only *)
+| Adopt (nm : N) (ms : list (N * bool * bool)).      (* maildir: files (mark, \Deleted, in new/)
+                                                        that appeared in the folder without a
+                                                        uidlist record are adopted by reset() *)
 
 (* the environment's choice: who any_selected returned *)
 Record choice := mkChoice { c_pick : option N }.
@@ -263,7 +278,6 @@ Record choice := mkChoice { c_pick : option N }.
 Inductive out :=
 | OBad                                  (* wrong connection state *)
 | ONo
-| OStaleCmd                             (* command of a connection whose name was re-bound *)
 | OBadChoice                            (* the choice is not one the code can make *)
 | OOk (p : post)
 | OAppend (i : N) (uids : bytes) (p : post)
@@ -279,7 +293,7 @@ Definition in_set (set : option (list N)) (u : N) : bool :=
 (* resolution of a select-state command: the selection, and the mailbox its
    remembered name denotes now *)
 Inductive resolved :=
-| RBad | RNo | RStale | RBox (sl : sel) (i : N) (b : box).
+| RBad | RNo | RBox (sl : sel) (i : N) (b : box).
 
 Definition resolve (st : sys) (s : N) : resolved :=
   match lookup s (sess st) with
@@ -287,7 +301,7 @@ Definition resolve (st : sys) (s : N) : resolved :=
   | Some sl =>
     match find_box st (s_name sl) with
     | None => RNo
-    | Some (i, b) => if i =? s_bid sl then RBox sl i b else RStale
+    | Some (i, b) => if i =? s_bid sl then RBox sl i b else RNo   (* replaced: gone *)
     end
   end.
 
@@ -300,9 +314,32 @@ Definition resync (s : N) (st : sys) : sys * post :=
 (* MailboxSet.add_mailbox *)
 Definition create_box (nm : N) (st : sys) : sys :=
   mkSys (names st ++ [(nm, next_bid st)]) (boxes st ++ [(next_bid st, empty_box (cfg_base st))])
-        (sess st) (next_bid st + 1) (next_inst st) (held st) (cfg_base st) (cfg_shared st).
+        (sess st) (next_bid st + 1) (next_inst st) (held st) (cfg_base st) (cfg_shared st) (ro_boxes st).
 
-(* MailboxSet.rename_mailbox for flat names *)
+(* the messages a COPY/MOVE set denotes, in the order get_uids lists them *)
+Fixpoint select_pos (l : list N) (k : N) (view : list N) : list N :=
+  match view with
+  | [] => []
+  | u :: r => if mem k l then u :: select_pos l (k + 1) r else select_pos l (k + 1) r
+  end.
+Definition select_view (set : uset) (view : list N) : list N :=
+  match set with
+  | UAll => view
+  | UUids l => filter (fun u => mem u l) view
+  | USeqs l => select_pos l 1 view
+  end.
+
+(* hierarchy: the names are INBOX = 0, three top-level names 1..3 and one
+   inferior of each, p/Sub = p + 4 (delimiter "/") *)
+Definition name_sub (p : N) : option N :=
+  if (1 <=? p) && (p <=? 3) then Some (p + 4) else None.
+Definition has_name (st : sys) (n : N) : bool :=
+  match lookup n (names st) with Some _ => true | None => false end.
+(* ListTree.get: the name exists or is the superior of an existing name *)
+Definition in_tree (st : sys) (n : N) : bool :=
+  has_name st n || match name_sub n with Some c => has_name st c | None => false end.
+
+(* MailboxSet.rename_mailbox for one name *)
 Definition rename_box (a b : N) (st : sys) : sys :=
   match lookup a (names st) with
   | None => st
@@ -310,9 +347,38 @@ Definition rename_box (a b : N) (st : sys) : sys :=
     if a =? INBOX then
       mkSys (replace INBOX (next_bid st) (names st) ++ [(b, i)])
             (boxes st ++ [(next_bid st, empty_box (cfg_base st))])
-            (sess st) (next_bid st + 1) (next_inst st) (held st) (cfg_base st) (cfg_shared st)
+            (sess st) (next_bid st + 1) (next_inst st) (held st) (cfg_base st) (cfg_shared st) (ro_boxes st)
     else set_names (remove a (names st) ++ [(b, i)]) st
   end.
+
+(* get_renames: the name itself and (except for INBOX) its inferior *)
+Definition rename_tree (a b : N) (st : sys) : sys :=
+  let st1 := rename_box a b st in
+  match name_sub a, name_sub b with
+  | Some ca, Some cb => rename_box ca cb st1
+  | _, _ => st1
+  end.
+
+(* reset(): an unknown file gets the next UID; it counts as stored \Recent iff
+   it lies in new/ *)
+Definition adopt_one (i : N) (rc dl : bool) (mk : N) (st : sys) : sys :=
+  match lookup i (boxes st) with
+  | None => st
+  | Some b =>
+    let u := b_max b + 1 in
+    set_boxes (replace i (mkBox u (b_msgs b ++ [mkMsg u rc dl mk]) (b_log b ++ [(u, mk)]))
+                       (boxes st)) st
+  end.
+Fixpoint adopt_loop (i : N) (ms : list (N * bool * bool)) (st : sys) : sys :=
+  match ms with
+  | [] => st
+  | (mk, dl, rc) :: r => adopt_loop i r (adopt_one i rc dl mk st)
+  end.
+
+Definition set_ro (l : list N) (st : sys) : sys :=
+  mkSys (names st) (boxes st) (sess st) (next_bid st) (next_inst st) (held st)
+        (cfg_base st) (cfg_shared st) l.
+Definition box_ro (st : sys) (i : N) : bool := mem i (ro_boxes st).
 
 (* the loop of append_messages *)
 Fixpoint append_loop (i : N) (c : option N) (ms : list (N * bool * bool)) (st : sys)
@@ -360,14 +426,14 @@ Definition clear_recent (m : msg) : msg := mkMsg (m_uid m) false (m_deleted m) (
 
 Definition add_sel (s : N) (sl : sel) (hs : list (N * N * N)) (st : sys) : sys :=
   mkSys (names st) (boxes st) (sess st ++ [(s, sl)]) (next_bid st) (next_inst st + 1)
-        (held st ++ hs) (cfg_base st) (cfg_shared st).
+        (held st ++ hs) (cfg_base st) (cfg_shared st) (ro_boxes st).
 
 Definition select_new (s nm : N) (ro : bool) (st : sys) : sys * out :=
   match find_box st nm with
   | None => (st, ONo)
   | Some (i, b) =>
     let k := next_inst st in
-    if ro then
+    if ro || box_ro st i then
       (add_sel s (mkSel i nm true k [] (live_uids b) 0) [] st,
        OSelect i true (nlen (b_msgs b)) (nlen (stored_recent b)) (b_max b + 1))
     else
@@ -389,17 +455,31 @@ Definition step (st : sys) (o : op) (ch : choice) : sys * out :=
          | Some _ => (st, ONo)
          | None => let '(st', p) := post_sync s None (create_box nm st) in (st', OOk p)
          end
+  | Delete s nm =>
+    if nm =? INBOX then (st, ONo)
+    else match lookup nm (names st) with
+         | None => (st, ONo)
+         | Some _ =>
+           let '(st', p) := post_sync s None (set_names (remove nm (names st)) st) in (st', OOk p)
+         end
   | Rename s a b =>
     if b =? INBOX then (st, ONo)
-    else match lookup a (names st), lookup b (names st) with
-         | Some _, None => let '(st', p) := post_sync s None (rename_box a b st) in (st', OOk p)
-         | _, _ => (st, ONo)
-         end
+    else if in_tree st a && negb (in_tree st b) then
+      if (a =? INBOX) && match lookup s (sess st) with
+                         | Some sl => s_name sl =? INBOX
+                         | None => false
+                         end
+      then (* the connection that renames the INBOX it has selected is not
+              told by its own RENAME *)
+        (rename_tree a b st, OOk PNone)
+      else let '(st', p) := post_sync s None (rename_tree a b st) in (st', OOk p)
+    else (st, ONo)
   | Append s nm ms =>
     match find_box st nm with
     | None => (st, ONo)
     | Some (i, _) =>
-      if pick_ok st s i (c_pick ch) then
+      if box_ro st i then (st, ONo)
+      else if pick_ok st s i (c_pick ch) then
         let '(st1, us) := append_loop i (c_pick ch) ms st in
         let '(st2, p) := post_sync s (Some i) st1 in
         (st2, OAppend i (uidset_bytes us) p)
@@ -411,7 +491,6 @@ Definition step (st : sys) (o : op) (ch : choice) : sys * out :=
     match resolve st s with
     | RBad => (st, OOk PNone)
     | RNo => (st, ONo)
-    | RStale => (st, OStaleCmd)
     | RBox sl i b => let '(st', p) := do_sync s sl b st in (st', OOk p)
     end
   | Close s =>
@@ -428,14 +507,13 @@ Definition step (st : sys) (o : op) (ch : choice) : sys * out :=
           if i =? s_bid sl then
             (drop_sel s (remove_msgs i (fun m => mem (m_uid m) (s_view sl) && m_deleted m) st),
              OOk PNone)
-          else (st, OStaleCmd)
+          else (drop_sel s st, OOk PNone)
         end
     end
   | Expunge s set =>
     match resolve st s with
     | RBad => (st, OBad)
     | RNo => (st, ONo)
-    | RStale => (st, OStaleCmd)
     | RBox sl i b =>
       if s_ro sl then (st, ONo)
       else
@@ -447,13 +525,13 @@ Definition step (st : sys) (o : op) (ch : choice) : sys * out :=
     match resolve st s with
     | RBad => (st, OBad)
     | RNo => (st, ONo)
-    | RStale => (st, OStaleCmd)
     | RBox sl i b =>
       match find_box st nm with
       | None => (st, ONo)
       | Some (j, _) =>
-        if pick_ok st s j (c_pick ch) then
-          let us := filter (in_set set) (s_view sl) in
+        if box_ro st j then (st, ONo)
+        else if pick_ok st s j (c_pick ch) then
+          let us := select_view set (s_view sl) in
           let '(st1, ps) := copy_loop false i j (c_pick ch) us st in
           let '(st2, p) := resync s st1 in
           (st2, OCopy (match ps with
@@ -467,14 +545,14 @@ Definition step (st : sys) (o : op) (ch : choice) : sys * out :=
     match resolve st s with
     | RBad => (st, OBad)
     | RNo => (st, ONo)
-    | RStale => (st, OStaleCmd)
     | RBox sl i b =>
       match find_box st nm with
       | None => (st, ONo)
       | Some (j, _) =>
-        if s_ro sl then (st, ONo)            (* MOVE out of a read-only selection *)
+        if s_ro sl || box_ro st j then (st, ONo)   (* MOVE out of a read-only selection,
+                                                      or into a read-only mailbox *)
         else if pick_ok st s j (c_pick ch) then
-          let us := filter (in_set set) (s_view sl) in
+          let us := select_view set (s_view sl) in
           let '(st1, ps) := copy_loop true i j (c_pick ch) us st in
           let '(st2, p) := resync s st1 in
           (st2, OCopy (match ps with
@@ -499,7 +577,6 @@ Definition step (st : sys) (o : op) (ch : choice) : sys * out :=
     match resolve st s with
     | RBad => (st, OBad)
     | RNo => (st, ONo)
-    | RStale => (st, OStaleCmd)
     | RBox sl i b =>
       let '(st1, p) := do_sync s sl b st in
       match lookup s (sess st1) with
@@ -511,13 +588,38 @@ Definition step (st : sys) (o : op) (ch : choice) : sys * out :=
     match resolve st s with
     | RBad => (st, OBad)
     | RNo => (st, ONo)
-    | RStale => (st, OStaleCmd)
     | RBox sl i b =>
       let '(st1, p) := do_sync s sl b st in
       if s_ro sl then (st1, OStore p false)
       else
         (map_msgs i (fun m => if in_set set (m_uid m) then apply_store md fd m else m) st1,
          OStore p true)
+    end
+  | Idle s =>
+    match lookup s (sess st) with
+    | None => (st, OBad)
+    | Some _ => (st, OOk PNone)           (* "+ Idling." *)
+    end
+  | IdleWake s =>
+    match resolve st s with
+    | RBox sl i b => let '(st', p) := do_sync s sl b st in (st', OOk p)
+    | _ => (st, OOk PNone)
+    end
+  | Done s =>
+    match resolve st s with
+    | RBad => (st, OBad)
+    | RNo => (st, ONo)
+    | RBox sl i b => let '(st', p) := do_sync s sl b st in (st', OOk p)
+    end
+  | MakeRo nm =>
+    match find_box st nm with
+    | Some (i, _) => (set_ro (i :: ro_boxes st) st, OOk PNone)
+    | None => (st, OOk PNone)
+    end
+  | Adopt nm ms =>
+    match find_box st nm with
+    | Some (i, _) => (adopt_loop i ms st, OOk PNone)
+    | None => (st, OOk PNone)
     end
   end.
 
